@@ -24,7 +24,7 @@ use forkrun::*;
 // seeds
 
 #[derive(Clone, Debug)]
-struct Seed { path: String, name: String, tool: String, game: String, flags: Vec<String>, bytes: Vec<u8> }
+struct Seed { path: String, name: String, tool: String, game: String, flags: Vec<String>, bytes: Vec<u8>, known_bad: bool }
 
 fn load_manifest(p: &str) -> Vec<Seed> {
     let text = std::fs::read_to_string(p).expect("manifest");
@@ -38,6 +38,7 @@ fn load_manifest(p: &str) -> Vec<Seed> {
             name: Path::new(f[0]).file_name().unwrap().to_string_lossy().to_string(),
             tool: f[1].to_string(), game: f[2].to_string(),
             flags: f.get(3).map(|s| s.split_whitespace().map(|x| x.to_string()).collect()).unwrap_or_default(),
+            known_bad: f.get(4).map(|s| *s == "knownbad").unwrap_or(false),
             bytes,
         });
     }
@@ -116,8 +117,8 @@ impl<'a> MutGen<'a> {
             for _ in 0..1500 { c.push(self.rng.below(n as u64) as usize); }
             c.push(n - 1); c.sort(); c.dedup(); c
         } else {
-            let mut c: Vec<usize> = (0..n.min(24)).collect();
-            let want = per_seed / 3;
+            let mut c: Vec<usize> = [0usize, 1, 2, 3, 4, 7, 8, 12, 16].iter().cloned().filter(|&k| k < n).collect();
+            let want = (per_seed / 6).max(4);
             for _ in 0..want { c.push(self.rng.below(n as u64) as usize); }
             c.push(n - 1); c.sort(); c.dedup(); c
         };
@@ -400,9 +401,11 @@ fn report(seeds: &[Seed], muts: &[Mutant], res: &[(usize, Outcome)], mode: &str)
         }
         if o.ok { continue; }
         nfail += 1;
-        *per_class.entry(o.class.clone()).or_insert(0) += 1;
-        if per_class[&o.class] <= 3 {
-            println!("FAIL\t{}\t{}\t{}\t{}\t{}\t{}\t{}\t{}\t{}\t{}", mode, o.class, o.detail.replace('\t', " "), s.tool, s.game, s.flags.join(","), m.action,
+        // an unmodified bundled / compiled file that crashes is never an instance of a recorded finding
+        let class = if m.kind == "seed" && !s.known_bad { format!("c16-seed-regression:{}:{}", s.name, o.class) } else { o.class.clone() };
+        *per_class.entry(class.clone()).or_insert(0) += 1;
+        if per_class[&class] <= 3 {
+            println!("FAIL\t{}\t{}\t{}\t{}\t{}\t{}\t{}\t{}\t{}\t{}", mode, class, o.detail.replace('\t', " "), s.tool, s.game, s.flags.join(","), m.action,
                      m.opts.join(","), format!("{} {}", s.name, m.desc), hex(&m.bytes));
         }
     }
@@ -726,7 +729,7 @@ fn main() {
             // c16 replay <tool> <game> <flags,> <action> <opts,> <hexfile>: fork server, exec'd binary and library
             let split = |s: &str| -> Vec<String> { s.split(',').filter(|x| !x.is_empty()).map(|x| x.to_string()).collect() };
             let bytes = unhex(std::fs::read_to_string(&args[7]).expect("hex file").trim());
-            let seed = Seed { path: String::new(), name: "replay".into(), tool: args[2].clone(), game: args[3].clone(), flags: split(&args[4]), bytes: bytes.clone() };
+            let seed = Seed { path: String::new(), name: "replay".into(), tool: args[2].clone(), game: args[3].clone(), flags: split(&args[4]), bytes: bytes.clone(), known_bad: true };
             let action: &'static str = if args[5] == "extract" { "extract" } else { "decompile" };
             let opts_owned = split(&args[6]);
             let opts: Vec<&'static str> = DECOMP_OPTS.iter().flat_map(|o| o.iter()).filter(|o| opts_owned.iter().any(|x| x == *o)).cloned().collect::<std::collections::BTreeSet<_>>().into_iter().collect();
